@@ -39,7 +39,6 @@ structure Frame (s t : State) : Prop where
   cmap : t.cmap = s.cmap
   pollfds : t.pollfds = s.pollfds
   kernel : t.kernel = s.kernel
-  blind : t.blind = s.blind
   ev : ∀ c, (t.chans c).events = (s.chans c).events
   idx : ∀ c, (t.chans c).index = (s.chans c).index
   added : ∀ c, (t.chans c).added = (s.chans c).added
@@ -91,27 +90,27 @@ theorem ReachF.preserves {F} {P : State → Prop}
   | cb f _ ih => exact ih (hcb _ _ f hs)
 
 theorem Frame.rfl' (s : State) : Frame s s :=
-  ⟨rfl, rfl, rfl, rfl, rfl, fun _ => rfl, fun _ => rfl, fun _ => rfl, id, [], by simp, by simp, by simp⟩
+  ⟨rfl, rfl, rfl, rfl, fun _ => rfl, fun _ => rfl, fun _ => rfl, id, [], by simp, by simp, by simp⟩
 
 theorem Reach.ofFrame {s t : State} (f : Frame s t) : Reach s t := .frame f (.refl t)
 
 theorem frame_emit (s : State) (e : Ev) (h : e.isPlumb) (ha : e.isAbort = false) : Frame s (emit s e) :=
-  ⟨rfl, rfl, rfl, rfl, rfl, fun _ => rfl, fun _ => rfl, fun _ => rfl, id, [e], rfl, by simpa using h,
+  ⟨rfl, rfl, rfl, rfl, fun _ => rfl, fun _ => rfl, fun _ => rfl, id, [e], rfl, by simpa using h,
     by simpa using fun _ => ha⟩
 
 theorem frame_abort (s : State) (w : String) : Frame s (abort s w) :=
-  ⟨rfl, rfl, rfl, rfl, rfl, fun _ => rfl, fun _ => rfl, fun _ => rfl, by simp [abort], [.abort w], rfl,
+  ⟨rfl, rfl, rfl, rfl, fun _ => rfl, fun _ => rfl, fun _ => rfl, by simp [abort], [.abort w], rfl,
     by simp [Ev.isPlumb], by simp [abort]⟩
 
 theorem frame_revents (s : State) (c r) : Frame s (setChan s c { s.chans c with revents := r }) := by
-  refine ⟨rfl, rfl, rfl, rfl, rfl, ?_, ?_, ?_, id, [], by simp [setChan], by simp, by simp⟩ <;>
+  refine ⟨rfl, rfl, rfl, rfl, ?_, ?_, ?_, id, [], by simp [setChan], by simp, by simp⟩ <;>
   · intro x; simp only [setChan]; split <;> simp_all
 
 theorem Frame.trans {a b c : State} (f : Frame a b) (g : Frame b c) : Frame a c := by
   obtain ⟨l1, h1, n1, d1⟩ := f.out
   obtain ⟨l2, h2, n2, d2⟩ := g.out
   refine ⟨g.be.trans f.be, g.cmap.trans f.cmap, g.pollfds.trans f.pollfds, g.kernel.trans f.kernel,
-    g.blind.trans f.blind, fun c => (g.ev c).trans (f.ev c), fun c => (g.idx c).trans (f.idx c),
+    fun c => (g.ev c).trans (f.ev c), fun c => (g.idx c).trans (f.idx c),
     fun c => (g.added c).trans (f.added c), fun h => f.dead (g.dead h),
     l1 ++ l2, by rw [h2, h1, List.append_assoc], ?_, ?_⟩
   · intro e he
@@ -125,7 +124,7 @@ theorem Frame.trans {a b c : State} (f : Frame a b) (g : Frame b c) : Frame a c 
 
 theorem Quiet.frame {s t : State} (q : Quiet s t) : Frame s t := by
   obtain ⟨h, c, rfl⟩ := q
-  exact ⟨rfl, rfl, rfl, rfl, rfl, fun _ => rfl, fun _ => rfl, fun _ => rfl, id, [], by simp, by simp, by simp⟩
+  exact ⟨rfl, rfl, rfl, rfl, fun _ => rfl, fun _ => rfl, fun _ => rfl, id, [], by simp, by simp, by simp⟩
 
 theorem ReachD.reach {s t : State} (h : ReachD s t) : Reach s t := ReachF.mono (fun _ _ q => q.frame) h
 
@@ -234,14 +233,14 @@ theorem frame_pollerPoll (s : State) (ready) (nret) : Frame s (pollerPoll s read
         simp only at h ⊢
         split
         · refine ((frame_wait s _).trans h).trans ?_
-          exact ⟨rfl, rfl, rfl, rfl, rfl, fun _ => rfl, fun _ => rfl, fun _ => rfl, id,
+          exact ⟨rfl, rfl, rfl, rfl, fun _ => rfl, fun _ => rfl, fun _ => rfl, id,
             [.grow (epGrowTo s1.evsize)], rfl, by simp [Ev.isPlumb], by simp [Ev.isAbort]⟩
         · exact (frame_wait s _).trans h
       · rw [if_neg h2]; exact frame_wait s _
 
 theorem frame_bookkeeping (s : State) (it : Nat) (act : List Nat) (h : Bool) (c : Option Nat) :
     Frame s { s with iteration := it, active := act, handling := h, cur := c } :=
-  ⟨rfl, rfl, rfl, rfl, rfl, fun _ => rfl, fun _ => rfl, fun _ => rfl, id, [], by simp, by simp, by simp⟩
+  ⟨rfl, rfl, rfl, rfl, fun _ => rfl, fun _ => rfl, fun _ => rfl, id, [], by simp, by simp, by simp⟩
 
 theorem reach_iter (s : State) (ready) (nret) : Reach s (iter s ready nret) := by
   unfold iter
@@ -276,10 +275,10 @@ theorem reach_run (ins : List In) (s : State) : Reach s (run s ins) := by
   | cons i t ih => exact (reach_step s i).trans (ih _)
 
 theorem frame_of_cbStep {s t : State} (h : CbStep s t) :
-    t.be = s.be ∧ t.cmap = s.cmap ∧ t.pollfds = s.pollfds ∧ t.kernel = s.kernel ∧ t.blind = s.blind ∧
+    t.be = s.be ∧ t.cmap = s.cmap ∧ t.pollfds = s.pollfds ∧ t.kernel = s.kernel ∧
       t.chans = s.chans ∧ t.dead = s.dead := by
   obtain ⟨c, k, _, _, _, rfl⟩ := h
-  exact ⟨rfl, rfl, rfl, rfl, rfl, rfl, rfl⟩
+  exact ⟨rfl, rfl, rfl, rfl, rfl, rfl⟩
 
 /-! ### histories whose inputs satisfy a state-dependent admissibility condition -/
 
